@@ -1,16 +1,24 @@
 package torrent
 
 import (
+	"io"
 	"net"
 	"time"
 
+	"github.com/cenkalti/rain/v2/internal/allocator"
+	"github.com/cenkalti/rain/v2/internal/announcer"
 	"github.com/cenkalti/rain/v2/internal/bitfield"
 	"github.com/cenkalti/rain/v2/internal/metainfo"
+	"github.com/cenkalti/rain/v2/internal/peer"
+	"github.com/cenkalti/rain/v2/internal/peerconn"
+	"github.com/cenkalti/rain/v2/internal/peerprotocol"
+	"github.com/cenkalti/rain/v2/internal/peersource"
 	"github.com/cenkalti/rain/v2/internal/resumer"
 	"github.com/cenkalti/rain/v2/internal/resumer/boltdbresumer"
 	"github.com/cenkalti/rain/v2/internal/semaphore"
 	"github.com/cenkalti/rain/v2/internal/storage"
 	vrt "github.com/cenkalti/rain/v2/internal/zzvrt"
+	"github.com/nictuku/dht"
 	"github.com/rcrowley/go-metrics"
 )
 
@@ -91,6 +99,7 @@ func (s *zzStorage) RootDir() string { return "/d/t" }
 
 func zzSession() *Session {
 	s := &Session{config: DefaultConfig}
+	s.config.AllowedFastSet = 0 // allowed-fast set generation (SHA-1 chain) is outside the fixture
 	s.metrics = &sessionMetrics{session: s, Peers: metrics.NewCounter(), SpeedDownload: metrics.NilMeter{}, SpeedUpload: metrics.NilMeter{}}
 	s.semWrite = semaphore.New(1)
 	return s
@@ -105,6 +114,9 @@ const (
 // is not started: harnesses call the handlers the loop would call).
 func zzNewTorrent(info *metainfo.Info, bf *bitfield.Bitfield, sto storage.Storage) *torrent {
 	zzLog = nil
+	zzSentLog = nil
+	zzDHTNodes = nil
+	zzCancelled = nil
 	zzAcceptors = 0
 	zzResumerFails = false
 	s := zzSession()
@@ -129,3 +141,95 @@ func zzChanClosed(c chan struct{}) bool {
 		return false
 	}
 }
+
+// ---- peers ----
+
+type zzSent struct {
+	conn  *peerconn.Conn
+	msg   peerprotocol.Message
+	piece *peerprotocol.RequestMessage // non-nil for SendPiece
+	data  io.ReaderAt
+}
+
+var (
+	zzSentLog   []zzSent
+	zzDHTNodes  []string
+	zzCancelled []peerprotocol.CancelMessage
+)
+
+// The writer goroutine of a peer connection is not running in handler-step
+// harnesses: everything the torrent sends to a peer is recorded instead.
+//
+//vrt:replace (*github.com/cenkalti/rain/v2/internal/peerconn.Conn).SendMessage github.com/cenkalti/rain/v2/torrent.zzSendMessage
+func zzSendMessage(c *peerconn.Conn, msg peerprotocol.Message) {
+	zzSentLog = append(zzSentLog, zzSent{conn: c, msg: msg})
+}
+
+//vrt:replace (*github.com/cenkalti/rain/v2/internal/peerconn.Conn).SendPiece github.com/cenkalti/rain/v2/torrent.zzSendPiece
+func zzSendPiece(c *peerconn.Conn, msg peerprotocol.RequestMessage, pi io.ReaderAt) {
+	m := msg
+	zzSentLog = append(zzSentLog, zzSent{conn: c, piece: &m, data: pi})
+}
+
+//vrt:replace (*github.com/cenkalti/rain/v2/internal/peerconn.Conn).CancelRequest github.com/cenkalti/rain/v2/torrent.zzCancelRequest
+func zzCancelRequest(c *peerconn.Conn, msg peerprotocol.CancelMessage) {
+	zzCancelled = append(zzCancelled, msg)
+}
+
+//vrt:replace (*github.com/nictuku/dht.DHT).AddNode github.com/cenkalti/rain/v2/torrent.zzDHTAddNode
+func zzDHTAddNode(d *dht.DHT, addr string) { zzDHTNodes = append(zzDHTNodes, addr) }
+
+// zzAddPeer connects a peer through the torrent's real startPeer (peer.New,
+// first messages); ip is the last byte of its address 10.0.0.ip.
+func zzAddPeer(t *torrent, ip byte, incoming bool, extensions [8]byte) *peer.Peer {
+	conn := &vrt.Conn{Remote: &net.TCPAddr{IP: net.IP{10, 0, 0, ip}, Port: 6881}}
+	var id [20]byte
+	id[0] = ip
+	before := make(map[*peer.Peer]struct{}, len(t.peers))
+	for p := range t.peers {
+		before[p] = struct{}{}
+	}
+	if incoming {
+		t.startPeer(conn, peersource.Incoming, t.incomingPeers, id, extensions, 0)
+	} else {
+		t.startPeer(conn, peersource.Tracker, t.outgoingPeers, id, extensions, 0)
+	}
+	for p := range t.peers {
+		if _, ok := before[p]; !ok {
+			return p
+		}
+	}
+	return nil
+}
+
+// zzSentTo returns what was sent to pe since index from.
+func zzSentTo(pe *peer.Peer, from int) []zzSent {
+	var out []zzSent
+	for _, s := range zzSentLog[from:] {
+		if s.conn == pe.Conn {
+			out = append(out, s)
+		}
+	}
+	return out
+}
+
+// zzStartDownloading drives a fresh torrent (with metadata) to the Downloading
+// state through the real handlers: start, allocation done (new files), with an
+// empty bitfield.
+func zzStartDownloading(t *torrent, sto *zzStorage) {
+	t.start()
+	al := t.allocator
+	al.HasMissing = true
+	for _, f := range t.info.Files {
+		sf, _, _ := sto.Open(f.Path, f.Length)
+		al.Files = append(al.Files, allocator.File{Storage: sf, Name: f.Path, Padding: f.Padding})
+	}
+	t.handleAllocationDone(al)
+}
+
+// Announcers are not running in handler-step harnesses; "need more peers"
+// signals (an unbuffered send to the announcer goroutine) are recorded.
+var zzNeedMorePeers int
+
+//vrt:replace (*github.com/cenkalti/rain/v2/internal/announcer.DHTAnnouncer).NeedMorePeers github.com/cenkalti/rain/v2/torrent.zzDHTNeedMorePeers
+func zzDHTNeedMorePeers(a *announcer.DHTAnnouncer, val bool) { zzNeedMorePeers++ }
